@@ -9,7 +9,7 @@ split — completes, with the C01/C02 oracles holding throughout."""
 from . import sched_common as sc
 from . import c01, c02
 from .. import common
-from ..schedlib import model_request, run_impl
+from ..schedlib import layout, model_request, run_impl
 
 MODULES = sc.MODULES + ["Props.C02", "Props.C03Run", "Props.C05Run", "Props.C04Run", "Connect", "ConnectLemmas"]
 GEN_OBLIGATIONS = sc.GEN_OBLIGATIONS
@@ -45,6 +45,37 @@ def oracle(spec, impl):
     f = c02.oracle(spec, impl)
     if f:
         return f
+    f = dpush_oracle(spec, impl)
+    if f:
+        return f
+    return None
+
+
+def dpush_oracle(spec, impl):
+    """"the scheduling guarantees hold throughout" on a link resolved by DelayToPush: what reaches the source output is
+    min(requested time, newest publication of the source) — judged on links with nothing but pass-through adapters
+    besides, whose source output has this one reader and whose source is a time-stepped component"""
+    nin, nout, out_index = layout(spec)
+    links = []
+    for li, l in enumerate(spec["links"]):
+        if (any(a[0] == "dpush" for a in l["ads"]) and all(a[0] in ("dpush", "scale") for a in l["ads"])
+                and spec["comps"][l["src"]]["kind"] == "time" and spec["comps"][l["dst"]]["kind"] == "time"
+                and sum(1 for m in spec["links"] if (m["src"], m["out"]) == (l["src"], l["out"])) == 1):
+            links.append(l)
+    if not links:
+        return None
+    now = {i: c["start"] for i, c in enumerate(spec["comps"]) if c["kind"] == "time"}
+    for u, t_new, reqs in sc.split_updates(impl):
+        for l in links:
+            if l["dst"] != u:
+                continue
+            gi = out_index[(l["src"], l["out"])]
+            rs = [tt for tag, tt in reqs if tag == ("out", gi)]
+            if rs and int(round(rs[-1])) != min(int(round(t_new)), int(round(now[l["src"]]))):
+                return ("a link behind DelayToPush is served the source's data for min(requested time, newest publication)",
+                        {"consumer": u, "requested": t_new, "source_published_up_to": now[l["src"]], "reached_the_source_for": rs[-1]}, None)
+        if u in now:
+            now[u] = t_new
     return None
 
 
